@@ -48,9 +48,11 @@ def run(seed: str):
 def main() -> int:
     jobs = int(sys.argv[sys.argv.index("-j") + 1]) if "-j" in sys.argv else 8
     seeds = sorted(os.listdir(os.path.join(VERIF, "seeded")))
-    if "--only" in sys.argv:  # e.g. --only "-19,-20": seeds whose id ends with one of the suffixes
-        sfx = tuple(sys.argv[sys.argv.index("--only") + 1].split(","))
-        seeds = [s for s in seeds if s.endswith(sfx)]
+    only = next((a.split("=", 1)[1] for a in sys.argv if a.startswith("--only=")), None)
+    if only is None and "--only" in sys.argv:
+        only = sys.argv[sys.argv.index("--only") + 1]
+    if only is not None:  # e.g. --only=-19,-20: seeds whose id ends with one of the suffixes
+        seeds = [s for s in seeds if s.endswith(tuple(only.split(",")))]
     if "--props" in sys.argv:  # e.g. --props C16,C02: seeds breaking one of these properties
         pfx = tuple(x + "-" for x in sys.argv[sys.argv.index("--props") + 1].split(","))
         seeds = [s for s in seeds if s.startswith(pfx)]
